@@ -176,6 +176,8 @@ func c13(c *Ctx) {
 	}
 
 	// ---- one calendar day through every Date entry point
+	var heldResp *messages.GetCardByIndexResponse
+	heldDay := ""
 	checkDay := func(y, m, d int, tag string) {
 		if y < 1 || y > 9999 || (y == 1 && m == 1 && d == 1) {
 			return
@@ -217,6 +219,12 @@ func c13(c *Ctx) {
 			}
 		}
 		check("ToDate", types.ToDate(y, time.Month(m), d), nil)
+		// a date the application converted from a timestamp of its own (midnight UTC, or in a fixed zone - the way the library's
+		// own tests build dates): it is that calendar date, and encodes as that date, whatever the process zone is
+		if caseNo%4 == 0 {
+			check("types.Date(midnight UTC)", types.Date(time.Date(y, time.Month(m), d, 0, 0, 0, 0, time.UTC)), nil)
+			check("types.Date(timestamp in a fixed zone)", types.Date(time.Date(y, time.Month(m), d, int(caseNo/4)%24, 30, 0, 0, time.FixedZone("F", (int(caseNo/4)%27-12)*3600))), nil)
+		}
 		pd, perr := types.ParseDate(want)
 		check("ParseDate", pd, perr)
 		var jd types.Date
@@ -233,6 +241,18 @@ func c13(c *Ctx) {
 		check("wire(GetCardByIndexResponse.From)", resp.From, werr)
 		if werr == nil {
 			check("wire(GetCardByIndexResponse.To)", resp.To, nil)
+		}
+		// ... and through the message dispatcher; the previous day's message is still held and still shows its own dates
+		if caseNo%3 == 0 {
+			if v, derr := messages.UnmarshalResponse(msg); derr == nil {
+				if cur, ok := v.(*messages.GetCardByIndexResponse); ok && cur != nil {
+					check("wire(dispatcher)", cur.From, nil)
+					if heldResp != nil && (heldResp.From.String() != heldDay || heldResp.To.String() != heldDay) {
+						viol(key+":wire(dispatcher):held", fmt.Sprintf("the message dispatched for %s shows %v / %v after the message for %s was dispatched", heldDay, heldResp.From, heldResp.To, want), map[string]any{"day": heldDay, "next": want})
+					}
+					heldResp, heldDay = cur, want
+				}
+			}
 		}
 		// order relative to the neighbouring days (calendar order must survive the zone)
 		prev := civilOf(civilUnix(y, m, d, 12, 0, 0)-86400, time.UTC)
